@@ -768,6 +768,17 @@ def uci_scenarios(work, vh, rep, props, seed, tier, want_real=True):
     ns = 6 if quick else 16
     for i in range(ns):
         jobs.append(("stub%d" % i, ["-mode", "stub", "-seed", seed * 100 + i, "-n", 25 if quick else 400, "-delay", [0, 20, 50][i % 3], "-maxus", [100, 400, 1500][i % 3]]))
+    # spec -> impl: behaviours generated by TLC from Uci.tla, projected onto the controllable steps
+    import simscripts
+    nsim = 40 if quick else 1200
+    scripts, rsim = simscripts.generate(work, nsim, seed)
+    rep.add_tlc(rsim)
+    rep.extra["tlc_simulated_behaviours_replayed"] = len(scripts)
+    per = max(1, (len(scripts) + 3) // 4)
+    for i in range(0, len(scripts), per):
+        path = work.path("simscripts%d.json" % (i // per))
+        simscripts.write(scripts[i:i + per], path)
+        jobs.append(("sim%d" % (i // per), ["-mode", "script", "-scripts", path]))
     if want_real:
         for i in range(4 if quick else 12):
             jobs.append(("real%d" % i, ["-mode", "real", "-seed", seed * 100 + 50 + i, "-n", 8 if quick else 80, "-delay", 20]))
